@@ -6,6 +6,7 @@
   as possible: a queue is subscribed to at most one channel and, for every frame processed while it
   is subscribed and the channel is enabled, receives that frame's samples of the channel, in order.
 -/
+import NxsModel.Route
 import NxsModel.Gen.CfgShape
 import NxsModel.Fanout
 import NxsModel.Lemmas.Fanout
@@ -441,6 +442,43 @@ theorem empty_frames_neutral (s : St) (fl : Nat) (ss : List Smp)
 theorem groups_nonempty (n : Nat) (ops : List Op) :
     ∀ e ∈ (run (St.init n) ops).queues, ∀ g ∈ e.2, g ≠ [] :=
   groupsNonempty_run _ ops (groupsNonempty_init n)
+
+/-- the single receive thread preserves FIFO order end to end: the stream queue holds exactly the
+    STREAM frames, in arrival order, and the response queue everything else in arrival order (ACKs are
+    dropped only while no device description is known) -/
+theorem route_fifo (hasDev : Bool) (frs : List Serial.Frame) :
+    (Route.queues hasDev frs).2 = frs.filter (fun f => f.fid = Gen.Ids.idSTREAM) ∧
+    (Route.queues hasDev frs).1 =
+      frs.filter (fun f => f.fid ≠ Gen.Ids.idSTREAM ∧ ¬ (hasDev = false ∧ f.fid = Gen.Ids.idACK)) := by
+  have hne : Gen.Ids.idACK ≠ Gen.Ids.idSTREAM := by decide
+  induction frs with
+  | nil => simp [Route.queues]
+  | cons fr r ih =>
+    obtain ⟨ih1, ih2⟩ := ih
+    have hq : Route.queues hasDev (fr :: r) =
+        (match Route.dest hasDev fr with
+          | .stream => ((Route.queues hasDev r).1, fr :: (Route.queues hasDev r).2)
+          | .resp => (fr :: (Route.queues hasDev r).1, (Route.queues hasDev r).2)
+          | .dropped => ((Route.queues hasDev r).1, (Route.queues hasDev r).2)) := rfl
+    rw [hq]
+    by_cases h1 : fr.fid = Gen.Ids.idSTREAM
+    · have hd : Route.dest hasDev fr = .stream := by simp [Route.dest, h1]
+      rw [hd]
+      simp [List.filter_cons, h1, ih1, ih2]
+    · by_cases h2 : hasDev = false ∧ fr.fid = Gen.Ids.idACK
+      · have hd : Route.dest hasDev fr = .dropped := by simp [Route.dest, h2.1, h2.2, hne]
+        rw [hd]
+        obtain ⟨ha, hb⟩ := h2
+        subst ha
+        simp [List.filter_cons, hb, hne, ih1, ih2]
+      · have hd : Route.dest hasDev fr = .resp := by
+          unfold Route.dest
+          rw [if_neg h1]
+          have : (!hasDev && decide (fr.fid = Gen.Ids.idACK)) = false := by
+            cases hasDev <;> simp_all
+          rw [this]; rfl
+        rw [hd]
+        simp [List.filter_cons, h1, h2, ih1, ih2]
 
 /-- the fan-out code that `Fanout.lean` transcribes is present in the current source (regenerated
     facts): the stream thread groups the samples of enabled channels and puts each group on every queue
